@@ -90,7 +90,7 @@ pub const VCAP: usize = {vcap};
 
 
 def build_crdt_vcoll(ws, mode, harness_files, keys, nodes, vcap=None, name="crdt", timestamp_harness=(), extra_unwind=0,
-                     features_decl="verif_replay = []", export_api=False):
+                     features_decl="verif_replay = []", export_api=False, suffix=""):
     """The whole datacake-crdt crate: Cargo deps and lib.rs from /repo, timestamp.rs verbatim, orswot.rs with the
     container import rewrites (solve mode) or verbatim (replay mode: std containers), harness modules appended."""
     d = ws.path(name)
@@ -120,7 +120,7 @@ def build_crdt_vcoll(ws, mode, harness_files, keys, nodes, vcap=None, name="crdt
     rules = ORSWOT_REWRITES if mode == "solve" else ORSWOT_REPLAY_REWRITES
     mounted.append(dcv.mount("datacake-crdt/src/orswot.rs", os.path.join(d, "src/orswot.rs"), rewrites=rules,
                              append=[os.path.join(ENC, h) for h in harness_files],
-                             subst={"@@UNWIND@@": unwind}))
+                             subst={"@@UNWIND@@": unwind, "@@SFX@@": suffix}))
     return d, mounted, {"KEYS": keys, "NODES": nodes, "DOM": dom, "VCAP": vcap, "unwind": unwind}
 
 
